@@ -81,12 +81,12 @@ def stepObj (variant : String) (o : Obj) (op : String) : Option (String Ã— Obj Ã
       some (withSpec m (if o.specHeld then "blocks" else "acquired"), { o with word := w4, specHeld := false }, false)
     | "tother" =>
       -- a second thread: one trylock; on success it unlocks again
+      let sp := if o.specHeld then "0 1" else "1 0"
       match tryAlone p o.word with
       | some (w1, b) =>
         let w2 := if b then ((unlockAlone p w1).map (Â·.1)).getD w1 else w1
-        let sp := if o.specHeld then "0 1" else "1 0"
         some (withSpec (b01 b ++ " " ++ toString w2.toNat) sp, { o with word := w2 }, false)
-      | none => some ("no-model SPECDIFF ?", o, false)
+      | none => some (withSpec "blocks" sp, o, false)      -- record not evaluable (as `try`)
     | _ => none
   | none, some m =>
     let call (f : MutexFn) (t : Tid) (ow : Option Tid) := wrapperAlone EBUSY f ow t
